@@ -15,7 +15,7 @@ Section Of.
   (* the child context in which definition number i is validated on its own:
      schema {field: definition + inherited type / allow_unknown}, the SAME document, options and update flag *)
   Definition def_ctx (x : ctx) (op : string) (field : key) (i : Z) (def' : dict) : ctx :=
-    {| x_cfg := as_child (set_allow_unknown (x_cfg x) (VBool true)) (VDict (x_doc x));
+    {| x_cfg := as_child (set_is_normalized (set_allow_unknown (x_cfg x) (VBool true)) false) (VDict (x_doc x));
        x_schema := [(field, VDict def')]; x_doc := x_doc x;
        x_dp := x_dp x; x_sp := x_sp x ++ [field; KStr op; KInt i];
        x_update := upd F x "validate_logical" |}.
